@@ -54,14 +54,16 @@ impl<T: Unpin> tokio_stream::Stream for Source<T> {
 
 // ---------------------------------------------------------------- scripted body
 pub enum BItem { Data(Vec<u8>), Pend, Err(Status), Trailers(http::HeaderMap) }
-pub struct ScriptBody { pub items: std::collections::VecDeque<BItem>, pub polls_after_end: Arc<AtomicUsize>, pub ended: bool }
+pub struct ScriptBody { pub items: std::collections::VecDeque<BItem>, pub polls_after_end: Arc<AtomicUsize>, pub ended: bool,
+    /// fused = keeps answering None after its end (for labs whose own driver polls a wrapping body past its end on purpose)
+    pub fused: bool }
 impl Body for ScriptBody {
     type Data = Bytes;
     type Error = Status;
     fn poll_frame(mut self: Pin<&mut Self>, cx: &mut Context<'_>) -> Poll<Option<Result<Frame<Bytes>, Status>>> {
         // not fused either: a body polled again after it has ended reports that as an error frame (once)
         if self.ended { let n = self.polls_after_end.fetch_add(1, Ordering::SeqCst);
-            return if n == 0 { Poll::Ready(Some(Err(Status::data_loss("http body polled after it had ended")))) } else { Poll::Ready(None) }; }
+            return if n == 0 && !self.fused { Poll::Ready(Some(Err(Status::data_loss("http body polled after it had ended")))) } else { Poll::Ready(None) }; }
         match self.items.pop_front() {
             None => { self.ended = true; Poll::Ready(None) }
             Some(BItem::Pend) => { cx.waker().wake_by_ref(); Poll::Pending }
@@ -245,7 +247,7 @@ fn make_body(stim: &Value, wire: &[u8], enc_trailers: Option<http::HeaderMap>, e
     };
     ev.push(json!({"e":"body","delivered": bytes_json(&wire[..p]), "script": script, "tail": tail_kind, "tail_code": tail_code}));
     let c = Arc::new(AtomicUsize::new(0));
-    (ScriptBody { items: q, polls_after_end: c.clone(), ended: false }, c)
+    (ScriptBody { items: q, polls_after_end: c.clone(), ended: false, fused: false }, c)
 }
 
 fn decode(stim: &Value, wire: &[u8], dec_enc: Option<CompressionEncoding>, enc_trailers: Option<http::HeaderMap>, ev: &mut Vec<Value>) {
